@@ -29,6 +29,18 @@ theorem grid_in_range (A W x r' : Rat) (hW : 0 < W) (hlo : A - W ≤ x) (hhi : x
     (he : |r' - Grid.rescaleExact (3/2) 4 A W x| ≤ 1/16) : 0 ≤ Grid.mantissa r' ∧ Grid.mantissa r' < 2^52 :=
   GridProofs.grid_in_range_fixed A W x r' hW hlo hhi he
 
+/-- … and after the second repair (`29187d1`: all active axes share the largest active extent `G ≥ W` as grid scale) the
+rescaled value lies in `(1, 15/8]`; an evaluation error smaller than its distance to 1 and than 1/16 cannot leave `[1, 2)` -/
+theorem grid_in_range_shared_scale (A W G x r' : Rat) (hW : 0 < W) (hG : W ≤ G) (hlo : A - W ≤ x) (hhi : x ≤ A + 2*W)
+    (he : |r' - Grid.rescaleExactG (3/2) 4 A W G x| ≤ min (Grid.rescaleExactG (3/2) 4 A W G x - 1) (1/16)) :
+    0 ≤ Grid.mantissa r' ∧ Grid.mantissa r' < 2^52 :=
+  GridProofs.gridG_in_range_fixed A W G x r' hW hG hlo hhi he
+
+/-- all active axes get the same grid width: the map to the grid is a similarity on the subspace the generators live in -/
+theorem grid_scale_shared (dim : Nat) (w0 w1 w2 : Rat) (i j : Nat) (hi : i < dim) (hj : j < dim) :
+    Grid.gridWidth true dim w0 w1 w2 i = Grid.gridWidth true dim w0 w1 w2 j :=
+  GridProofs.gridWidth_shared dim w0 w1 w2 i j hi hj
+
 /-- the defect of the pinned tree, as a theorem about its constants: the mirror image through the upper wall of a generator
 on the lower wall is rescaled to exactly 2 -/
 theorem pinned_domain_hits_two (A W : Rat) (hW : 0 < W) : Grid.rescaleExact 1 3 A W (Grid.mirrorHigh A W A) = 2 :=
@@ -41,5 +53,26 @@ theorem ties_globally_consistent {α : Type} [CommRing α] (a b c d v : I3 α) :
     Ref.inSphereDet a c b d v * Ref.orient a c b d = Ref.inSphereDet a b c d v * Ref.orient a b c d ∧
     Ref.inSphereDet a b d c v * Ref.orient a b d c = Ref.inSphereDet a b c d v * Ref.orient a b c d :=
   InSphereProofs.insphere_consistent a b c d v
+
+/-- **T05.3b** the exact tie test is the Euclidean one only under a similarity: uniform scaling multiplies the determinant by
+`k^5` and the orientation by `k^3` (so "inside" = sign of their product is unchanged for every `k ≠ 0`), translation changes
+nothing … -/
+theorem tie_test_invariant_under_similarity {α : Type} [CommRing α] (k : α) (t a b c d v : I3 α) :
+    Ref.inSphereDet ⟨k * a.c0, k * a.c1, k * a.c2⟩ ⟨k * b.c0, k * b.c1, k * b.c2⟩ ⟨k * c.c0, k * c.c1, k * c.c2⟩
+        ⟨k * d.c0, k * d.c1, k * d.c2⟩ ⟨k * v.c0, k * v.c1, k * v.c2⟩ = k ^ 5 * Ref.inSphereDet a b c d v ∧
+    Ref.orient ⟨k * a.c0, k * a.c1, k * a.c2⟩ ⟨k * b.c0, k * b.c1, k * b.c2⟩ ⟨k * c.c0, k * c.c1, k * c.c2⟩
+        ⟨k * d.c0, k * d.c1, k * d.c2⟩ = k ^ 3 * Ref.orient a b c d ∧
+    Ref.inSphereDet ⟨a.c0 + t.c0, a.c1 + t.c1, a.c2 + t.c2⟩ ⟨b.c0 + t.c0, b.c1 + t.c1, b.c2 + t.c2⟩
+        ⟨c.c0 + t.c0, c.c1 + t.c1, c.c2 + t.c2⟩ ⟨d.c0 + t.c0, d.c1 + t.c1, d.c2 + t.c2⟩
+        ⟨v.c0 + t.c0, v.c1 + t.c1, v.c2 + t.c2⟩ = Ref.inSphereDet a b c d v :=
+  ⟨InSphereProofs.inSphereDet_scale k a b c d v, InSphereProofs.orient_scale k a b c d, InSphereProofs.inSphereDet_translate t a b c d v⟩
+
+/-- … and NOT under a per-axis rescaling (the pinned tree): doubling the first axis turns "outside" into "inside" -/
+theorem tie_test_not_invariant_per_axis :
+    (0 < Ref.orient (⟨0, 1, 3⟩ : I3 Int) ⟨2, 3, 0⟩ ⟨3, 0, 2⟩ ⟨3, 1, 1⟩ ∧
+      0 < Ref.inSphereDet (⟨0, 1, 3⟩ : I3 Int) ⟨2, 3, 0⟩ ⟨3, 0, 2⟩ ⟨3, 1, 1⟩ ⟨1, 0, 1⟩) ∧
+    (0 < Ref.orient (⟨0, 1, 3⟩ : I3 Int) ⟨4, 3, 0⟩ ⟨6, 0, 2⟩ ⟨6, 1, 1⟩ ∧
+      Ref.inSphereDet (⟨0, 1, 3⟩ : I3 Int) ⟨4, 3, 0⟩ ⟨6, 0, 2⟩ ⟨6, 1, 1⟩ ⟨2, 0, 1⟩ < 0) :=
+  InSphereWitness.anisotropic_scaling_flips_sign
 
 end MVoro.C05
